@@ -819,7 +819,21 @@ pub const IMPORT_FORMS: &[&str] = &[
     "{ m := import \"p\"; 1 }",
     "a := import \"p\"; b := import \"p\"; 2",
     "if true { import \"p\" } else { 0 }",
+    // the same file twice / a file reached along two import paths: every import yields the module
+    "a := import \"p\"; b := import \"p\"; (a.a, b.a, b.s, b.f(1))",
+    "m := import \"p\"; n := import \"q\"; (m.a, n.a, m.inner.a, n.f(1), m.inner.s)",
+    "g := () -> int { m := import \"p\"; return m.a + m.f(1) }; (g(), g())",
 ];
+
+/// What a fault-free case must evaluate to (canonical value text) when its files are valid.
+fn expected_value(form: usize, p: &str, q: &str) -> Option<&'static str> {
+    match (form, p, q) {
+        (6, "valid", _) => Some("(1,1,\"t\",2)"),
+        (7, "nested", "valid") => Some("(1,1,1,2,\"t\")"),
+        (8, "valid", _) => Some("(3,3)"),
+        _ => None,
+    }
+}
 
 #[derive(Clone, Debug)]
 pub struct ImportCase {
@@ -883,8 +897,10 @@ pub fn run_import_case(case: &ImportCase, key_seed: u64) -> RunReport {
             }
             Ok(Ok(code)) => {
                 rep.log.push(format!("{desc} -> Ok"));
-                if calls.iter().any(|c| matches!(c.result, CallResult::Err(..))) && case.form <= 1 {
-                    rep.violation = Some(("io-error-lost".into(), format!("{desc}: a read failed but the program was accepted")));
+                // (an implementation may try several paths; what must not happen is acceptance although
+                // the last read - the one whose text would have been the module - failed)
+                if calls.last().is_some_and(|c| matches!(c.result, CallResult::Err(..))) && case.form <= 1 {
+                    rep.violation = Some(("io-error-lost".into(), format!("{desc}: the last read failed but the program was accepted")));
                     return rep;
                 }
                 let r = guarded(|| code.exec());
@@ -898,7 +914,21 @@ pub fn run_import_case(case: &ImportCase, key_seed: u64) -> RunReport {
                             rep.violation = Some(("module-names".into(), format!("{desc}: module has fields {names:?}, file declares a, f, s")));
                         }
                     }
-                    Ok(_) => {}
+                    Ok(Ok(v)) => {
+                        if let (None, Some(want)) = (case.fault, expected_value(case.form, MODULE_STATES[case.p_state].0, MODULE_STATES[case.q_state].0)) {
+                            if cvar(&v) != want {
+                                rep.violation = Some(("module-value".into(), format!("{desc}: evaluates to {} but the imported files define {want}", cvar(&v))));
+                            }
+                        }
+                    }
+                    Ok(Err(_)) => {}
+                }
+            }
+        }
+        if rep.violation.is_none() && case.fault.is_none() {
+            if let (Some(want), Some(l)) = (expected_value(case.form, MODULE_STATES[case.p_state].0, MODULE_STATES[case.q_state].0), rep.log.last()) {
+                if l.contains("-> Err") {
+                    rep.violation = Some(("module-value".into(), format!("{l}; the files are readable and define {want}")));
                 }
             }
         }
@@ -923,7 +953,7 @@ pub fn import_cases() -> Vec<ImportCase> {
     };
     for form in 0..IMPORT_FORMS.len() {
         for p in 0..MODULE_STATES.len() {
-            let qs: Vec<usize> = if p == nested { (0..MODULE_STATES.len()).filter(|q| *q != nested).collect() } else { vec![0] };
+            let qs: Vec<usize> = if p == nested || form == 7 { (0..MODULE_STATES.len()).filter(|q| *q != nested).collect() } else { vec![0] };
             for q in qs {
                 for f in &fault_opts {
                     v.push(ImportCase { form, p_state: p, q_state: q, fault: *f });
